@@ -244,7 +244,7 @@ impl FuelConverter {
                 format_dbg!(self.state.engine_on || pwr_out_req == si::Power::ZERO)
             )
         );
-        self.state.pwr_fuel = pwr_out_req / self.state.eta + self.pwr_idle_fuel;
+        self.state.pwr_fuel = pwr_out_req / self.state.eta + self.state.pwr_idle_fuel;
         self.state.pwr_loss = self.state.pwr_fuel - self.state.pwr_brake;
 
         self.state.energy_brake += self.state.pwr_brake * dt;
